@@ -63,7 +63,7 @@ Fixpoint pos_of (c : N) (l : list N) (i : N) : N :=
 (* a raw row: fields before the graph id, the graph, fields after *)
 Definition raw := (list N * slotmap * list N)%type.
 Definition ws_fields (commits : list N) (w : s_wstate) : list N :=
-  [lenN (ws_hist w); match ws_last w with None => 0 | Some a => pos_of (a_commit a) commits 1 end].
+  [lenN (ws_hist w); match ws_last w with None => 0 | Some a => pos_of (a_commit a) commits 1 end; ws_mat w].
 
 (* graph id: live tick index, or 500000 + index into the list of graphs that are no live state *)
 Definition add_unk (lives : list slotmap) (s : slotmap) (u : list slotmap) : list slotmap :=
@@ -366,7 +366,13 @@ def gen_case(rng, idx, kind, tier):
             scen.append(f"D:{w}:{rng.randint(0, n)}:{gen_cps(rng, n)}:{gen_prog(rng, 2, rng.randint(1, 5), 128, [0, 9])}")
         if idx % 10 == 0:
             scen.append("G:0")
-    return f"id={idx} wls={nwl} prog={prog} scen={'|'.join(scen)}"
+    # recorded channel outputs per worldline tick (bit i mod 16); most cases have an emitting tick followed by a silent one
+    outs = 0
+    if rng.random() < 0.7:
+        outs = rng.getrandbits(16)
+        a = rng.randint(0, max(0, min(nticks, 15) - 2))
+        outs = (outs | (1 << a)) & ~(1 << (a + 1))
+    return f"id={idx} wls={nwl} outs={outs:x} prog={prog} scen={'|'.join(scen)}"
 
 
 def parse_case(line):
@@ -405,10 +411,11 @@ class Facts:
                 ws.append(f"({self.kid[k]},None)")
         return "[" + ";".join(ws) + "]"
 
-    def header(self):
+    def header(self, outs=0):
         ps = []
         for t in range(self.n):
-            ps.append(f"(mk_patch {self.writes(self.dumps[t], self.dumps[t + 1])} {1000 + t} {1000 + t} 0 {2000 + t}, 0)")
+            out = t + 1 if (outs >> (t % 16)) & 1 else 0     # recorded outputs of entry t: label t+1, 0 = silent
+            ps.append(f"(mk_patch {self.writes(self.dumps[t], self.dumps[t + 1])} {1000 + t} {1000 + t} 0 {2000 + t}, {out})")
         return (f"let init : slotmap := {self.slotmap(self.dumps[0])} in "
                 f"let ps : list (spatch * N) := [{';'.join(ps)}] in "
                 f"let '(h0, lives) := lives_of init ps in "
@@ -585,8 +592,8 @@ def render_scen(s, val, fx, unk):
         out = [r_cps(f[4], cpres, fx.n)]
         for row in rows:
             d = unpack(row)
-            tick, code, hl, ll = d[4:8]
-            out.append(f"{r_out(d[0:4])}/t{tick},s{unk.sid(fx, code, unks)},h{hl},l{'x' if ll == 999 else ll},m{r_mode(d[8:11])}")
+            tick, code, hl, ll, mat = d[4:9]
+            out.append(f"{r_out(d[0:4])}/t{tick},s{unk.sid(fx, code, unks)},h{hl},l{'x' if ll == 999 else ll},o{mat},m{r_mode(d[9:12])}")
         return ";".join(out)
     if f[0] == "S":
         if val[0] == 9:
@@ -595,8 +602,8 @@ def render_scen(s, val, fx, unk):
         out = []
         for row in rows:
             d = unpack(row)
-            tick, code, hl, ll, rej = d[8:13]
-            out.append(f"{r_out(d[0:4])},{r_out(d[4:8])},{tick},{unk.sid(fx, code, unks)},{hl},{'x' if ll == 999 else ll}" + ("!cp" if rej else ""))
+            tick, code, hl, ll, mat, rej = d[8:14]
+            out.append(f"{r_out(d[0:4])},{r_out(d[4:8])},{tick},{unk.sid(fx, code, unks)},{hl},{'x' if ll == 999 else ll},{mat}" + ("!cp" if rej else ""))
         return ";".join(out)
     if f[0] == "F":
         _, cpres, (rows, unks) = val
@@ -667,7 +674,7 @@ def both(tag, cases, bins, r=None):
             if not idxs:
                 continue
             body = ", ".join(scen_term(scens[i], fx) for i in idxs)
-            tl.append((w, idxs, fx.header() + "(0, " + body + ")"))
+            tl.append((w, idxs, fx.header(int(m.get("outs", "0"), 16)) + "(0, " + body + ")"))
         terms.append(tl)
         metas.append(fxs)
     flat = [t for tl in terms if tl for (_, _, t) in tl]
@@ -732,7 +739,7 @@ def shrink_case(case, orc, bins):
     scens = [x for x in m["scen"].split("|") if x]
     mm = re.search(r"scen(\d+):", orc)
     def mk(prog, scen):
-        return f"id={m['id']} wls={m['wls']} prog={prog} scen={scen}"
+        return f"id={m['id']} wls={m['wls']} outs={m.get('outs', '0')} prog={prog} scen={scen}"
     try:
         prog = m["prog"]
         if mm and int(mm.group(1)) < len(scens):
@@ -929,7 +936,8 @@ MANIFEST = {
              "replayed and cursor states, any insertion order), ProvenanceService/LocalProvenanceStore forks at every tick and "
              "fork_strand with diverging child/parent: every (checkpoint subset, start, target) triple for histories <= 6 ticks, "
              "random op sequences on longer ones; every reached state (graph dump, root, tick history, last snapshot, "
-             "materialization) is compared with the live recording (oracle, all subsets) and every outcome (Ok / error kind+tick, cursor tick, "
+             "materialization incl. recorded channel outputs on emitting/silent ticks, tx counter via checkpoint acceptance) is "
+             "compared with the live recording AND with a fresh direct replay of ticks 0..t (oracle, all subsets) and every outcome (Ok / error kind+tick, cursor tick, "
              "state identity incl. partial states after injected verification failures) with the model (all checkpoint subsets "
              "up to 32/64 per sweep, a fixed sample containing the empty, full, singleton and co-singleton subsets beyond)."),
     "note": ("Trusted: Coq kernel + vm_compute; python generator/renderer; harness c07.rs (state dump abstraction, TamperStore "
@@ -937,7 +945,8 @@ MANIFEST = {
              "verified: the seek/replay/checkpoint/fork control logic as Gallina functions; patch application, state root and "
              "commit hash are parameters (C04/C06/C05); the cursor is assumed to be built from the same canonical U0 object that "
              "is passed to seek_to; the entry worldline-id check (one modelled store = one worldline), debug_assert in finalize_replay_metadata and committed_ingress/materialization-error checkpoint "
-             "fields are not modelled. Restore-vs-advance decisions are observable only through injected failures; on untampered "
+             "fields are not modelled; rules of the engine cannot emit, so recorded outputs are attached to the real entries when they "
+             "are re-appended (append_local_commit) into a second ProvenanceService. Restore-vs-advance decisions are observable only through injected failures; on untampered "
              "histories the tie is by outcome. A rejected seek leaves the cursor on its previous tick and state, for every store incl. tampered ones "
              "(failed_seek_keeps_cursor; restored by /repo fix 7e0a2d4, before it the forward path mutated the state in place). add_checkpoint "
              "compares roots, not graphs: a forged checkpoint with extra unreachable content is accepted (probe in evidence; C06)."),
